@@ -277,6 +277,24 @@ def r2_delegated(chk, prog):
         deep = deep_origins(ctx, t.args[1], 6)
         if any(is_call(o, FS) for o in deep) and any(is_call(o, SDT) for o in deep):
             pushed = True
+    # iterator spelling: signed_delegated_targets().into_iter().map(SignedRole::from_signed).collect()
+    for bb, t in ctx.calls("core::iter::traits::iterator::Iterator::map"):
+        if not any(is_call(o, SDT) for o in deep_origins(ctx, t.args[0], 6)):
+            continue
+        f_ = t.args[1]
+        direct = f_.is_const and f_.fn is not None and path_match(strip_generics(f_.fn), FS)
+        via_closure = False
+        for o in ctx.origins.of_operand(f_):
+            if o.kind == "agg" and o.extra is not None and hasattr(o.extra, "rv") and o.extra.rv.j.get("ak") == "closure":
+                cb = prog.body(o.extra.rv.j.get("def"))
+                if cb is not None:
+                    cctx = ctx_of(prog, cb.path)
+                    via_closure = any(all(x.kind == "param" for x in cctx.origins.of_operand(ct.args[0]))
+                                      for _, ct in cctx.calls(FS))
+        collected = any(any(o.kind == "call" and o.key[0] == bb for o in deep_origins(ctx, ct.args[0], 4))
+                        for _, ct in ctx.calls("core::iter::traits::iterator::Iterator::collect"))
+        if (direct or via_closure) and collected:
+            pushed = True
     chk.require(pushed, "R2", ctx.fn, "re-emits-each-delegated-role",
                 "the delegated roles collected are not each re-emitted through SignedRole::from_signed")
     # recursion of signed_delegated_targets
